@@ -1,1 +1,376 @@
-(* placeholder *)
+(** C11 — for every supported multi-table query the rows returned are exactly the
+    matching combinations of the base rows, projected on the select list, whatever
+    join order and join algorithm the optimizer picks and whatever statistics it
+    holds.  Statements only; every proof is [exact <lemma>] (Proofs/JoinProofs.v).
+
+    Model: Model/Join.v (findBestScans / findBestJoinInner / findBestJoin of
+    selinger_optimizer.go, the hash / index / nested-loop join, selection and
+    projection executors), with the single-table sub-plans of Model/Query.v (C06)
+    at the leaves.  Reference: Model/SqlRef.v ([join_sel]: cross product of the
+    tables in FROM order, filter, project).
+
+    The cost model is not modelled.  [join_candidates schs w sl] is every plan the
+    dynamic programme can return for SOME statistics: at every level each pair of
+    plans of two disjoint table sets (both orders, bushy splits included) with every
+    candidate findBestJoinInner builds for it, over every sub-plan findBestScan can
+    return for each table.  The theorems hold for every element of that list.
+    The murmur hash of the hash join is an input [h] of [run_join]: the theorems
+    hold for every hash function.
+
+    Quantifiers.  Two and three tables ([join_candidates] is [None] otherwise);
+    arbitrary schemas (integer / float / varchar columns, indexed or not) and
+    contents, including duplicate and missing join keys, empty tables, float -0.0 /
+    +0.0 keys, NULLs outside equality and indexed columns; WHERE = any AND-tree [w]
+    of equalities [column = column] — between two tables (join conditions: chains,
+    stars, triangles, several between one pair, none at all = cross product) or
+    inside one table (a filter of that table's scan, /repo e79176f) — and of
+    filters [column op literal]; any select list [sl] (any order, repetitions allowed).
+    Not expressible in the reference language (SqlRef.jpred) and therefore outside
+    the model: [column op column] with an operator other than [=].  (Inside one
+    table the engine applies it as a filter, like the equality; between two tables
+    findBestJoinInner only looks at [=] and the conjunct is silently dropped.)
+
+    Side conditions of [every_candidate_equiv] ([join_hyps_ok] decides all of them):
+    - [tables_wf], [query_scoped]: well-formed input;
+    - [conds_ok]: an equality compares two columns of one type;
+    - [filters_ok], [indexed_cols_nonnull]: the C06 side conditions of the per-table
+      sub-plans (no comparison of a filter hits a sentinel value; no NULL in an
+      indexed column);
+    - [no_null_keys]: no NULL in a column of an equality [column = column] — without
+      it the statement is FALSE (known finding F-NULL-JOIN,
+      [null_key_plan_dependent_refuted]).
+    Fixed since the first version of this file: float32 -0.0 against +0.0 as hash
+    join keys (F-NEGZERO-JOIN, /repo 47a18be; [neg_zero_unfixed_refuted] keeps the
+    statement about the engine before the fix, [run_join_gen false]) and the dropped
+    same-table equality (/repo e79176f; [c11_same_table_equality]). *)
+From Coq Require Import List NArith ZArith Bool Permutation.
+From SDB Require Import Base.Bytes Model.Codec Model.SqlRef Model.Query Model.Join
+  Proofs.QueryProofs Proofs.JoinProofs.
+Import ListNotations.
+Local Open Scope nat_scope.
+
+(** * Every candidate plan returns the reference answer *)
+
+Theorem every_candidate_equiv : forall h schs ts w sl l p,
+  tables_wf schs ts -> query_scoped schs w sl -> conds_ok schs w -> filters_ok schs ts w ->
+  indexed_cols_nonnull schs ts -> no_null_keys schs ts w ->
+  join_candidates schs w sl = Some l -> In p l ->
+  exists out, run_join h schs ts p = Some out /\ Permutation out (join_sel sl w ts).
+Proof. exact every_candidate_equiv_lemma. Qed.
+Print Assumptions every_candidate_equiv.
+
+(** The same, spelled out for two and for three tables. *)
+Theorem every_candidate_equiv_2 : forall h s0 s1 t0 t1 w sl l p,
+  tables_wf [s0; s1] [t0; t1] -> query_scoped [s0; s1] w sl -> conds_ok [s0; s1] w ->
+  filters_ok [s0; s1] [t0; t1] w -> indexed_cols_nonnull [s0; s1] [t0; t1] ->
+  no_null_keys [s0; s1] [t0; t1] w ->
+  join_candidates [s0; s1] w sl = Some l -> In p l ->
+  exists out, run_join h [s0; s1] [t0; t1] p = Some out /\ Permutation out (join_sel sl w [t0; t1]).
+Proof. exact every_candidate_equiv_2_lemma. Qed.
+Print Assumptions every_candidate_equiv_2.
+
+Theorem every_candidate_equiv_3 : forall h s0 s1 s2 t0 t1 t2 w sl l p,
+  tables_wf [s0; s1; s2] [t0; t1; t2] -> query_scoped [s0; s1; s2] w sl -> conds_ok [s0; s1; s2] w ->
+  filters_ok [s0; s1; s2] [t0; t1; t2] w -> indexed_cols_nonnull [s0; s1; s2] [t0; t1; t2] ->
+  no_null_keys [s0; s1; s2] [t0; t1; t2] w ->
+  join_candidates [s0; s1; s2] w sl = Some l -> In p l ->
+  exists out, run_join h [s0; s1; s2] [t0; t1; t2] p = Some out /\
+              Permutation out (join_sel sl w [t0; t1; t2]).
+Proof. exact every_candidate_equiv_3_lemma. Qed.
+Print Assumptions every_candidate_equiv_3.
+
+(** The dynamic programme always has a plan for two and for three tables. *)
+Theorem candidates_exist : forall schs w sl, (length schs = 2 \/ length schs = 3) ->
+  exists l, join_candidates schs w sl = Some l /\ l <> [].
+Proof. exact join_candidates_some. Qed.
+Print Assumptions candidates_exist.
+
+(** Whatever the cost model picks ([k]: its pick among the candidates). *)
+Theorem chosen_join_plan_equiv : forall h schs ts w sl k p l,
+  tables_wf schs ts -> query_scoped schs w sl -> conds_ok schs w -> filters_ok schs ts w ->
+  indexed_cols_nonnull schs ts -> no_null_keys schs ts w ->
+  join_candidates schs w sl = Some l -> nth_error l k = Some p ->
+  exists out, run_join_select h schs w sl k ts = Some out /\ Permutation out (join_sel sl w ts).
+Proof. exact run_join_select_equiv_lemma. Qed.
+Print Assumptions chosen_join_plan_equiv.
+
+(** * Corollaries: the answer does not depend on the join order or algorithm *)
+
+(** Two candidates that join the tables in different orders ([leaf_order]: the
+    tables from left to right in the plan tree) return the same rows. *)
+Theorem join_order_irrelevant : forall h schs ts w sl l p1 p2,
+  tables_wf schs ts -> query_scoped schs w sl -> conds_ok schs w -> filters_ok schs ts w ->
+  indexed_cols_nonnull schs ts -> no_null_keys schs ts w ->
+  join_candidates schs w sl = Some l -> In p1 l -> In p2 l ->
+  (* whatever [leaf_order p1] and [leaf_order p2] are *)
+  exists o1 o2, run_join h schs ts p1 = Some o1 /\ run_join h schs ts p2 = Some o2 /\ Permutation o1 o2.
+Proof. exact candidates_agree_lemma. Qed.
+Print Assumptions join_order_irrelevant.
+
+(** Two candidates that use different join algorithms ([algs]: hash / index /
+    nested loop at every join node, with or without the attached Selection)
+    return the same rows. *)
+Theorem join_algorithm_irrelevant : forall h schs ts w sl l p1 p2,
+  tables_wf schs ts -> query_scoped schs w sl -> conds_ok schs w -> filters_ok schs ts w ->
+  indexed_cols_nonnull schs ts -> no_null_keys schs ts w ->
+  join_candidates schs w sl = Some l -> In p1 l -> In p2 l ->
+  (* whatever [algs p1] and [algs p2] are *)
+  exists o1 o2, run_join h schs ts p1 = Some o1 /\ run_join h schs ts p2 = Some o2 /\ Permutation o1 o2.
+Proof. exact candidates_agree_lemma. Qed.
+Print Assumptions join_algorithm_irrelevant.
+
+(** * The side conditions are decidable on the statement and the tables *)
+
+Theorem join_hyps_decidable : forall schs ts w sl, join_hyps_ok schs ts w sl = true ->
+  tables_wf schs ts /\ query_scoped schs w sl /\ conds_ok schs w /\ filters_ok schs ts w /\
+  indexed_cols_nonnull schs ts /\ no_null_keys schs ts w.
+Proof. exact join_hyps_sound. Qed.
+Print Assumptions join_hyps_decidable.
+
+Theorem every_candidate_equiv_checked : forall h schs ts w sl l p,
+  join_hyps_ok schs ts w sl = true -> join_candidates schs w sl = Some l -> In p l ->
+  exists out, run_join h schs ts p = Some out /\ Permutation out (join_sel sl w ts).
+Proof. exact every_candidate_equiv_checked_lemma. Qed.
+Print Assumptions every_candidate_equiv_checked.
+
+(** [has_null_key] (Model/Join.v) is the signature of F-NULL-JOIN on a concrete statement;
+    [has_neg_zero_key] was the signature of F-NEGZERO-JOIN (fixed). *)
+Theorem no_null_keys_decidable : forall schs ts w, has_null_key schs ts w = false -> no_null_keys schs ts w.
+Proof. exact has_null_key_false. Qed.
+Print Assumptions no_null_keys_decidable.
+
+Theorem no_neg_zero_keys_decidable : forall schs ts w,
+  has_neg_zero_key schs ts w = false -> no_neg_zero_keys schs ts w.
+Proof. exact has_neg_zero_key_false. Qed.
+Print Assumptions no_neg_zero_keys_decidable.
+
+(** * F-NULL-JOIN: with NULL join keys the answer depends on the plan *)
+
+(** Full statements (false): the theorems without [no_null_keys]. *)
+Definition every_candidate_equiv_with_null_keys : Prop := forall h schs ts w sl l p,
+  tables_wf schs ts -> query_scoped schs w sl -> conds_ok schs w -> filters_ok schs ts w ->
+  indexed_cols_nonnull schs ts ->
+  join_candidates schs w sl = Some l -> In p l ->
+  exists out, run_join h schs ts p = Some out /\ Permutation out (join_sel sl w ts).
+
+Definition candidates_agree_with_null_keys : Prop := forall h schs ts w sl l p1 p2,
+  tables_wf schs ts -> query_scoped schs w sl -> conds_ok schs w -> filters_ok schs ts w ->
+  indexed_cols_nonnull schs ts ->
+  join_candidates schs w sl = Some l -> In p1 l -> In p2 l ->
+  exists o1 o2, run_join h schs ts p1 = Some o1 /\ run_join h schs ts p2 = Some o2 /\ Permutation o1 o2.
+
+Theorem every_candidate_equiv_with_null_keys_refuted : ~ every_candidate_equiv_with_null_keys.
+Proof. exact every_candidate_equiv_null_keys_refuted_lemma. Qed.
+Print Assumptions every_candidate_equiv_with_null_keys_refuted.
+
+Theorem candidates_agree_with_null_keys_refuted : ~ candidates_agree_with_null_keys.
+Proof. exact candidates_agree_null_keys_refuted_lemma. Qed.
+Print Assumptions candidates_agree_with_null_keys_refuted.
+
+(** The witness, every other hypothesis in place.  One three-table query
+      ta(a0,a1) = (1,10)   tb(b0,b1) = (1,NULL)   tc(c0,c1) = (NULL,7)
+      SELECT ta.a1, tc.c1 FROM ta, tb, tc WHERE ta.a0 = tb.b0 AND tb.b1 = tc.c0
+    and two candidates of the dynamic programme: two hash joins (NULL keys are
+    skipped: no row, the reference answer) and two nested loop joins with the
+    Selection [ta.a0 = tb.b0 AND tb.b1 = tc.c0] on top (CompareEquals(NULL, NULL) is
+    true: the row (10,7)). *)
+Theorem null_key_plan_dependent_refuted :
+  let schs := [i2; i2; i2] in let ts := [null_ta; null_tb; null_tc] in let sl := [1; 5]%nat in
+  tables_wf schs ts /\ query_scoped schs null_w3 sl /\ conds_ok schs null_w3 /\ filters_ok schs ts null_w3 /\
+  indexed_cols_nonnull schs ts /\
+  has_null_key schs ts null_w3 = true /\
+  exists l pH pN, join_candidates schs null_w3 sl = Some l /\ In pH l /\ In pN l /\
+    algs pH = [AHash; AHash] /\ algs pN = [ANest; ANest] /\
+    run_join wit_hash schs ts pH = Some [] /\
+    run_join wit_hash schs ts pN = Some [[VInt 10; VInt 7]] /\
+    join_sel sl null_w3 ts = [].
+Proof. exact null_key_plan_dependent_refuted_lemma. Qed.
+Print Assumptions null_key_plan_dependent_refuted.
+
+(** Two tables (the replay of the known finding):
+      na(a0,a1) = (NULL,1),(3,4)   nb(b0,b1) = (NULL,2),(3,5)
+      ... WHERE na.a0 = nb.b0 AND na.a0 = nb.b0   two linking equalities: both candidates are
+          nested loop + Selection and also return (1,2) — the reference does not;
+      ... WHERE na.a0 = nb.b0                      one equality: hash (index) joins, (4,5) only. *)
+Theorem null_key_two_tables_refuted :
+  let schs := [i2; i2] in let ts := [null_na; null_nb] in let sl := [1; 3]%nat in
+  tables_wf schs ts /\ query_scoped schs null_w2 sl /\ conds_ok schs null_w2 /\ filters_ok schs ts null_w2 /\
+  indexed_cols_nonnull schs ts /\
+  has_null_key schs ts null_w2 = true /\
+  map algs (cands schs null_w2 sl) = [[ANest]; [ANest]] /\
+  map (run_join wit_hash schs ts) (cands schs null_w2 sl) =
+    [Some [[VInt 1; VInt 2]; [VInt 4; VInt 5]]; Some [[VInt 1; VInt 2]; [VInt 4; VInt 5]]] /\
+  join_sel sl null_w2 ts = [[VInt 4; VInt 5]] /\
+  nth_error (cands schs null_w1 sl) 0 =
+    Some (JProject (JHash (JScan 0 (PProjection PSeqScan [0; 1]%nat)) (JScan 1 (PProjection PSeqScan [0; 1]%nat)) 0 2)
+                   [1; 3]%nat) /\
+  forallb (fun p => match run_join wit_hash schs ts p with Some [[VInt 4; VInt 5]] => true | _ => false end)
+          (cands schs null_w1 sl) = true /\
+  join_sel sl null_w1 ts = [[VInt 4; VInt 5]].
+Proof. exact null_key_two_tables_lemma. Qed.
+Print Assumptions null_key_two_tables_refuted.
+
+(** * F-NEGZERO-JOIN (fixed): float32 -0.0 against +0.0 as hash join keys *)
+
+(** Full statement about the engine BEFORE /repo 47a18be (false): [run_join_gen false]
+    hashes the key as serialised. *)
+Definition every_candidate_equiv_neg_zero_unfixed : Prop := forall h schs ts w sl l p,
+  tables_wf schs ts -> query_scoped schs w sl -> conds_ok schs w -> filters_ok schs ts w ->
+  indexed_cols_nonnull schs ts -> no_null_keys schs ts w ->
+  join_candidates schs w sl = Some l -> In p l ->
+  exists out, run_join_gen false h schs ts p = Some out /\ Permutation out (join_sel sl w ts).
+
+Theorem every_candidate_equiv_neg_zero_unfixed_refuted : ~ every_candidate_equiv_neg_zero_unfixed.
+Proof. exact every_candidate_equiv_neg_zero_unfixed_refuted_lemma. Qed.
+Print Assumptions every_candidate_equiv_neg_zero_unfixed_refuted.
+
+(** ga(x float, y int) = (-0.0, 1)   gb(u float indexed, v int) = (+0.0, 10)
+    SELECT ga.y, gb.v FROM ga, gb WHERE ga.x = gb.u
+    for a hash that separates the two serialisations ([wit_hash]; murmur does):
+    before the fix the hash join returned no row and the index join (1,10), the
+    reference answer; with the fix the hash join returns (1,10) too (and
+    [every_candidate_equiv] covers the case for every hash). *)
+Theorem neg_zero_unfixed_refuted :
+  let schs := [nz_s0; nz_s1] in let ts := [nz_ga; nz_gb] in let w := JColEq 0 2 in let sl := [1; 3]%nat in
+  tables_wf schs ts /\ query_scoped schs w sl /\ conds_ok schs w /\ filters_ok schs ts w /\
+  indexed_cols_nonnull schs ts /\ no_null_keys schs ts w /\
+  has_neg_zero_key schs ts w = true /\
+  exists l pH pI, join_candidates schs w sl = Some l /\ In pH l /\ In pI l /\
+    algs pH = [AHash] /\ algs pI = [AIndex] /\
+    run_join_gen false wit_hash schs ts pH = Some [] /\
+    run_join_gen false wit_hash schs ts pI = Some [[VInt 1; VInt 10]] /\
+    run_join wit_hash schs ts pH = Some [[VInt 1; VInt 10]] /\
+    join_sel sl w ts = [[VInt 1; VInt 10]].
+Proof. exact neg_zero_unfixed_refuted_lemma. Qed.
+Print Assumptions neg_zero_unfixed_refuted.
+
+(** * Non-vacuity *)
+
+(** Tables (Proofs/JoinProofs.v), every column indexed as after CREATE TABLE:
+      ta = (1,10) (2,20) (2,21) (5,50) (7,3)       key 2 twice, keys 5 and 7 without partner
+      tb = (2,3) (2,1) (1,7) (9,9) (1,10)          keys 1 and 2 twice, key 9 without partner
+      tc = (1,1) (2,7) (2,5) (3,3)
+    (the WHERE trees ex_w2, ex_w3, ex_wn, ex_wx, ex_ws, ex_wt and the table ex_td are defined there too);
+    [cands]: the candidate list, [results]: what each candidate returns with the
+    hash [wit_hash], [all_return .. ref]: every candidate runs and returns the rows
+    [ref] in some order. *)
+
+(** SELECT ta.a1, tb.b1 FROM ta, tb WHERE ta.a0 = tb.b0 AND tb.b1 > 2
+    duplicate keys on both sides, missing keys, a filter pushed below the join:
+    20 candidates, hash joins in both orientations and an index join into ta
+    (tb is filtered, so no index join into tb), with and without Selection. *)
+Example c11_nonvacuous_two_tables :
+  join_hyps_ok [ix2; ix2] [ex_ta; ex_tb] ex_w2 [1; 3]%nat = true /\
+  length (cands [ix2; ix2] ex_w2 [1; 3]%nat) = 20%nat /\
+  dedup_algs (map algs (cands [ix2; ix2] ex_w2 [1; 3]%nat)) = [[AHash]; [AIndex]] /\
+  dedup_nat_lists (map leaf_order (cands [ix2; ix2] ex_w2 [1; 3]%nat)) = [[0; 1]; [1; 0]]%nat /\
+  join_sel [1; 3]%nat ex_w2 [ex_ta; ex_tb] =
+    [[VInt 10; VInt 7]; [VInt 10; VInt 10]; [VInt 20; VInt 3]; [VInt 21; VInt 3]] /\
+  nth 0 (results [ix2; ix2] [ex_ta; ex_tb] ex_w2 [1; 3]%nat) None =
+    Some [[VInt 20; VInt 3]; [VInt 21; VInt 3]; [VInt 10; VInt 7]; [VInt 10; VInt 10]] /\
+  all_return [ix2; ix2] [ex_ta; ex_tb] ex_w2 [1; 3]%nat (join_sel [1; 3]%nat ex_w2 [ex_ta; ex_tb]) = true.
+Proof. vm_compute. repeat split; reflexivity. Qed.
+
+(** the same query against an empty tb *)
+Example c11_nonvacuous_empty_table :
+  join_hyps_ok [ix2; ix2] [ex_ta; []] ex_w2 [1; 3]%nat = true /\
+  length (cands [ix2; ix2] ex_w2 [1; 3]%nat) = 20%nat /\
+  join_sel [1; 3]%nat ex_w2 [ex_ta; []] = [] /\
+  all_return [ix2; ix2] [ex_ta; []] ex_w2 [1; 3]%nat [] = true.
+Proof. vm_compute. repeat split; reflexivity. Qed.
+
+(** SELECT td.d1, ta.a0, ta.a0 FROM ta, td WHERE ta.a0 = td.d0 AND ta.a1 = td.d1
+    td = (2,20) (2,21) (2,20) (4,4): two linking equalities, so nested loop join +
+    Selection (in both orders); a select list with a repeated column. *)
+Example c11_nonvacuous_nested_loop :
+  join_hyps_ok [ix2; ix2] [ex_ta; ex_td] ex_wn [3; 0; 0]%nat = true /\
+  map jshape_of (cands [ix2; ix2] ex_wn [3; 0; 0]%nat) =
+    [ShProject (ShSelect (ShNest ShScan ShScan)); ShProject (ShSelect (ShNest ShScan ShScan))] /\
+  join_sel [3; 0; 0]%nat ex_wn [ex_ta; ex_td] =
+    [[VInt 20; VInt 2; VInt 2]; [VInt 20; VInt 2; VInt 2]; [VInt 21; VInt 2; VInt 2]] /\
+  all_return [ix2; ix2] [ex_ta; ex_td] ex_wn [3; 0; 0]%nat (join_sel [3; 0; 0]%nat ex_wn [ex_ta; ex_td]) = true.
+Proof. vm_compute. repeat split; reflexivity. Qed.
+
+(** SELECT tc.c0, ta.a1 FROM ta, tc WHERE ta.a1 >= 50: no join condition, a cross
+    product; joined as (tc, ta) the columns already are the select list and no final
+    Projection is added. *)
+Example c11_nonvacuous_cross_product :
+  join_hyps_ok [ix2; ix2] [ex_ta; ex_tc] ex_wx [2; 1]%nat = true /\
+  map jshape_of (cands [ix2; ix2] ex_wx [2; 1]%nat) =
+    [ShProject (ShNest ShScan ShScan); ShNest ShScan ShScan; ShProject (ShNest ShScan ShScan); ShNest ShScan ShScan] /\
+  join_sel [2; 1]%nat ex_wx [ex_ta; ex_tc] = [[VInt 1; VInt 50]; [VInt 2; VInt 50]; [VInt 2; VInt 50]; [VInt 3; VInt 50]] /\
+  all_return [ix2; ix2] [ex_ta; ex_tc] ex_wx [2; 1]%nat (join_sel [2; 1]%nat ex_wx [ex_ta; ex_tc]) = true.
+Proof. vm_compute. repeat split; reflexivity. Qed.
+
+(** An equality inside one table is a filter of that table's scan (/repo e79176f):
+      ta(a0,a1) = (1,1),(2,20)   tb(b0,b1) = (2,3),(1,3)      (no index)
+      SELECT ta.a1, tb.b1 FROM ta, tb WHERE ta.a0 = tb.b0 AND ta.a0 = ta.a1
+    all 8 candidates return (1,3) (before the fix: (20,3),(1,3)); the leaf of ta carries
+    the Selection [a0 = a1]. *)
+Example c11_same_table_equality :
+  join_hyps_ok [i2; i2] [st_ta; st_tb] st_w [1; 3] = true /\
+  length (cands [i2; i2] st_w [1; 3]) = 8 /\
+  nth 0 (cands [i2; i2] st_w [1; 3]) dummy_plan =
+    JProject (JHash (JSelect (JScan 0 (PProjection PSeqScan [0; 1])) (JColEq 0 1))
+                    (JScan 1 (PProjection PSeqScan [0; 1])) 0 2) [1; 3] /\
+  join_sel [1; 3] st_w [st_ta; st_tb] = [[VInt 1; VInt 3]] /\
+  all_return [i2; i2] [st_ta; st_tb] st_w [1; 3] [[VInt 1; VInt 3]] = true.
+Proof. vm_compute. repeat split; reflexivity. Qed.
+
+(** The same with every column indexed: the filtered ta is never the inner side of an
+    index join (tb is); with [AND ta.a0 = 1] the leaf of ta is an index range scan
+    under that Selection.  A three-table chain with [tc.c0 = tc.c1]. *)
+Example c11_same_table_equality_indexed :
+  join_hyps_ok [ix2; ix2] [st_ta; st_tb] st_w [1; 3] = true /\
+  map (fun p => (algs p, leaf_order p)) (filter (fun p => match algs p with [AIndex] => true | _ => false end)
+                                                (cands [ix2; ix2] st_w [1; 3])) =
+    [([AIndex], [0; 1]); ([AIndex], [0; 1])] /\
+  all_return [ix2; ix2] [st_ta; st_tb] st_w [1; 3] [[VInt 1; VInt 3]] = true /\
+  join_hyps_ok [ix2; ix2] [st_ta; st_tb] st_w2 [1; 3] = true /\
+  nth 0 (cands [ix2; ix2] st_w2 [1; 3]) dummy_plan =
+    JProject (JHash (JSelect (JScan 0 (PProjection (PIndexRange 0 TInt (VInt 1) (VInt 1)) [0; 1])) (JColEq 0 1))
+                    (JScan 1 (PProjection PSeqScan [0; 1])) 0 2) [1; 3] /\
+  all_return [ix2; ix2] [st_ta; st_tb] st_w2 [1; 3] [[VInt 1; VInt 3]] = true /\
+  join_hyps_ok [ix2; ix2; ix2] [ex_ta; ex_tb; ex_tc] st_w3 [5; 1] = true /\
+  length (cands [ix2; ix2; ix2] st_w3 [5; 1]) = 200 /\
+  join_sel [5; 1] st_w3 [ex_ta; ex_tb; ex_tc] = [[VInt 3; VInt 20]; [VInt 1; VInt 20]; [VInt 3; VInt 21]; [VInt 1; VInt 21]] /\
+  all_return [ix2; ix2; ix2] [ex_ta; ex_tb; ex_tc] st_w3 [5; 1]
+             (join_sel [5; 1] st_w3 [ex_ta; ex_tb; ex_tc]) = true.
+Proof. vm_compute. repeat split; reflexivity. Qed.
+
+(** A three-table chain:
+    SELECT tc.c1, ta.a1 FROM ta, tb, tc WHERE ta.a0 = tb.b0 AND tb.b1 = tc.c1 AND tc.c0 > 0
+    400 candidates: all six join orders, left-deep and bushy-side splits, hash /
+    index / nested-loop joins in every combination the programme can build. *)
+Example c11_nonvacuous_three_table_chain :
+  join_hyps_ok [ix2; ix2; ix2] [ex_ta; ex_tb; ex_tc] ex_w3 [5; 1]%nat = true /\
+  length (cands [ix2; ix2; ix2] ex_w3 [5; 1]%nat) = 400%nat /\
+  dedup_nat_lists (map leaf_order (cands [ix2; ix2; ix2] ex_w3 [5; 1]%nat)) =
+    [[1; 0; 2]; [2; 0; 1]; [0; 1; 2]; [1; 2; 0]; [0; 2; 1]; [2; 1; 0]]%nat /\
+  dedup_algs (map algs (cands [ix2; ix2; ix2] ex_w3 [5; 1]%nat)) =
+    [[ANest; ANest]; [AIndex; AHash]; [AHash; AHash]; [AIndex; AIndex]; [AHash; AIndex]] /\
+  join_sel [5; 1]%nat ex_w3 [ex_ta; ex_tb; ex_tc] =
+    [[VInt 7; VInt 10]; [VInt 3; VInt 20]; [VInt 1; VInt 20]; [VInt 3; VInt 21]; [VInt 1; VInt 21]] /\
+  all_return [ix2; ix2; ix2] [ex_ta; ex_tb; ex_tc] ex_w3 [5; 1]%nat
+             (join_sel [5; 1]%nat ex_w3 [ex_ta; ex_tb; ex_tc]) = true.
+Proof. vm_compute. repeat split; reflexivity. Qed.
+
+(** A star (ta in the middle) and a triangle over the same tables. *)
+Example c11_nonvacuous_star_and_triangle :
+  join_hyps_ok [ix2; ix2; ix2] [ex_ta; ex_tb; ex_tc] ex_ws [5; 3; 1]%nat = true /\
+  length (cands [ix2; ix2; ix2] ex_ws [5; 3; 1]%nat) = 244%nat /\
+  length (join_sel [5; 3; 1]%nat ex_ws [ex_ta; ex_tb; ex_tc]) = 10%nat /\
+  all_return [ix2; ix2; ix2] [ex_ta; ex_tb; ex_tc] ex_ws [5; 3; 1]%nat
+             (join_sel [5; 3; 1]%nat ex_ws [ex_ta; ex_tb; ex_tc]) = true /\
+  join_hyps_ok [ix2; ix2; ix2] [ex_ta; ex_tb; ex_tc] ex_wt [5; 3; 1]%nat = true /\
+  length (cands [ix2; ix2; ix2] ex_wt [5; 3; 1]%nat) = 72%nat /\
+  dedup_algs (map algs (cands [ix2; ix2; ix2] ex_wt [5; 3; 1]%nat)) = [[ANest; AHash]; [ANest; AIndex]] /\
+  all_return [ix2; ix2; ix2] [ex_ta; ex_tb; ex_tc] ex_wt [5; 3; 1]%nat
+             (join_sel [5; 3; 1]%nat ex_wt [ex_ta; ex_tb; ex_tc]) = true.
+Proof. vm_compute. repeat split; reflexivity. Qed.
+
+(** The theorem applied to the chain: all 400 candidates, any hash function. *)
+Example c11_chain_by_theorem : forall h p, In p (cands [ix2; ix2; ix2] ex_w3 [5; 1]%nat) ->
+  exists out, run_join h [ix2; ix2; ix2] [ex_ta; ex_tb; ex_tc] p = Some out /\
+              Permutation out [[VInt 7; VInt 10]; [VInt 3; VInt 20]; [VInt 1; VInt 20]; [VInt 3; VInt 21]; [VInt 1; VInt 21]].
+Proof. exact chain_by_theorem_lemma. Qed.
